@@ -559,7 +559,7 @@ def extract_fn(item, opts, blocks, rewrites_log, as_stub=False):
                 raise GenErr('%s: loop #%d not found (%d loops)' % (item.name, k, len(loops)))
             pos = tk(loops[k - 1][1])[2]
             edits.append((pos, pos, G(key, '\n' + gtxt.rstrip() + '\n')))
-        elif key.startswith('before ') or key.startswith('after ') or key.startswith('loopend '):
+        elif key.startswith('before ') or key.startswith('after ') or key.startswith('loopend ') or key.startswith('blockend '):
             kind, n, anchor = key.split(' ', 2)
             n = int(n)
             if kind == 'loopend':
@@ -574,6 +574,21 @@ def extract_fn(item, opts, blocks, rewrites_log, as_stub=False):
             if n > len(occ):
                 raise GenErr('%s: anchor %r occurrence %d not found' % (item.name, anchor, n))
             s0, e0 = occ[n - 1]
+            if kind == 'blockend':
+                # end of the block that CONTAINS the anchored statement (robust against edits of the statements after the anchor)
+                pp = next(i for i in range(len(ci)) if toks[ci[i]][2] >= s0)
+                depth = 0; pos = None
+                while pp <= bodye:
+                    y = tk(pp)
+                    if y[0] == 'punct':
+                        if y[1] in OPEN: depth += 1
+                        elif y[1] in CLOSE:
+                            depth -= 1
+                            if depth < 0: pos = y[2]; break
+                    pp += 1
+                if pos is None: raise GenErr('%s: no enclosing block end for anchor %r' % (item.name, anchor))
+                edits.append((pos, pos, G(key, '\n' + gtxt.rstrip() + '\n')))
+                continue
             if kind == 'before':
                 ls = text.rfind('\n', 0, s0) + 1
                 # only whitespace may precede on the line, else insert right at the anchor
@@ -756,8 +771,8 @@ def parse_extract_blocks(lines, i):
                 cur = '%s %d' % (d.split()[0], int(d.split()[1]))
             elif d.split()[0] in ('loop', 'loopend'):
                 cur = '%s %d' % (d.split()[0], int(d.split()[1])) if d.split()[0] == 'loop' else 'loopend %d -' % int(d.split()[1])
-            elif d.split()[0] in ('before', 'after'):
-                mm = re.match(r'(before|after)\s+(?:(\d+)\s+)?(.+)$', d)
+            elif d.split()[0] in ('before', 'after', 'blockend'):
+                mm = re.match(r'(before|after|blockend)\s+(?:(\d+)\s+)?(.+)$', d)
                 cur = '%s %d %s' % (mm.group(1), int(mm.group(2) or 1), mm.group(3).strip())
             else:
                 raise GenErr('%s:%d unknown sub-directive %r' % (f, n, d))
@@ -931,7 +946,7 @@ def generate(unit_name):
             frag = types.SimpleNamespace(text=text[s0:e0], name=name + '#fragment', line=item.line + text.count('\n', 0, s0), path=path, kind='fn', impl=item.impl)
             fblocks = {'_rewrites': blocks.get('_rewrites', []), '_lines': {}}
             for kx, vx in blocks.items():
-                if kx.startswith('before ') or kx.startswith('after ') or kx.startswith('loop'): fblocks[kx] = vx
+                if kx.startswith('before ') or kx.startswith('after ') or kx.startswith('loop') or kx.startswith('blockend '): fblocks[kx] = vx
             wrapper = types.SimpleNamespace(text='fn verif_frag() {' + frag.text + '}', name=frag.name, line=frag.line, path=path, kind='fn', impl=item.impl)
             o2 = dict(opts); o2.pop('first', None); o2.pop('last', None); o2.pop('lastexpr', None); o2.pop('lastblock', None)
             body = extract_fn(wrapper, o2, fblocks, u.rewrites)
